@@ -217,7 +217,9 @@ func walKeyToFullPath(rootPath, keyPath string) (fullPath string) {
 }
 
 func (wf *WALFileType) QueueWriteCommand(wc *wal.WriteCommand) {
+	verifhook.At("Queue.before", wc.WALKeyPath, wc.Index)
 	wf.txnPipe.writeChannel <- wc
+	verifhook.At("Queue.after", wc.WALKeyPath, wc.Index)
 }
 
 // FlushToWAL A.k.a. Commit transaction.
